@@ -17,7 +17,9 @@ def shipped_hooks():
     return open(os.path.join(REPO, "acmed", "config", "default_hooks.toml")).read()
 
 
-def make_req(group, ident, issuances, with_git, port=None, defaulted=(), key_type="ecdsa-p256", host="127.0.0.1"):
+def make_req(group, ident, issuances, with_git, port=None, defaulted=(), key_type="ecdsa-p256", host="127.0.0.1", level="global", decoy_port=None):
+    """level: where the variables are set (the manual sets them in [global], on the certificate and on an identifier, the narrower one winning);
+    the wider levels and the daemon's own environment then hold decoy values that must not be used."""
     challenge = "http-01" if group.startswith("http") else "tls-alpn-01"
     env = {}
     if "HTTP_ROOT" not in defaulted:
@@ -32,12 +34,24 @@ def make_req(group, ident, issuances, with_git, port=None, defaulted=(), key_typ
         if "TACD_HOST" not in defaulted:
             env["TACD_HOST"] = host
     cert_hooks = [group] + (["git"] if with_git else [])
+    decoy = {k: {"HTTP_ROOT": "@DIR@/decoy/www", "TACD_PID_ROOT": "@DIR@/decoy/pid", "TACD_SOCK_ROOT": "@DIR@/decoy/sock", "TACD_PORT": str(decoy_port), "TACD_HOST": "127.0.0.2"}[k]
+             for k in env}
+    id_entry = {"dns": ident, "challenge": challenge}
+    cert_entry = {"endpoint": "ep0", "account": "acc0", "identifiers": [id_entry], "key_type": key_type, "hooks": cert_hooks}
+    genv = env
+    if level == "certificate":
+        cert_entry["env"] = env
+        genv = decoy
+    elif level == "identifier":
+        id_entry["env"] = env
+        cert_entry["env"] = decoy
+        genv = decoy
     doc = {
         "include": ["default_hooks.toml"],
-        "global": {"accounts_directory": "@DIR@/accounts", "certificates_directory": "@DIR@/certs", "env": env},
+        "global": {"accounts_directory": "@DIR@/accounts", "certificates_directory": "@DIR@/certs", "env": genv},
         "endpoint": [{"name": "ep0", "url": "@CA0@", "tos_agreed": True}],
         "account": [{"name": "acc0", "contacts": [{"mailto": "a@example.org"}], "hooks": ["git"] if with_git else []}],
-        "certificate": [{"endpoint": "ep0", "account": "acc0", "identifiers": [{"dns": ident, "challenge": challenge}], "key_type": key_type, "hooks": cert_hooks}],
+        "certificate": [cert_entry],
     }
     validate = {"http_root": "@DIR@/www", "retry_ms": 10000}
     if group.endswith("unix"):
@@ -51,9 +65,14 @@ def make_req(group, ident, issuances, with_git, port=None, defaulted=(), key_typ
     req["files"]["run-sock/.keep"] = ""
     req["env"] = {"PATH": "%s:/usr/local/sbin:/usr/local/bin:/usr/sbin:/usr/bin:/sbin:/bin" % os.path.dirname(build.REL_TACD), "GIT_CONFIG_NOSYSTEM": "1",
                   "GIT_CONFIG_GLOBAL": "/dev/null"}
+    if level != "global":
+        for sub in ("decoy/www", "decoy/pid", "decoy/sock"):
+            req["files"][sub + "/.keep"] = ""
+        # the daemon's own environment ranks below every configured level
+        req["env"].update(decoy)
     req["keep_dir"] = True
     req["observe_files"] = True
-    req["meta"] = {"group": group, "ident": ident, "issuances": issuances, "git": with_git, "defaulted": list(defaulted) + ([] if host == "127.0.0.1" else ["host=" + host]), "port": port}
+    req["meta"] = {"group": group, "ident": ident, "issuances": issuances, "git": with_git, "defaulted": list(defaulted) + ([] if host == "127.0.0.1" else ["host=" + host]) + ([] if level == "global" else ["level=" + level]), "port": port}
     return req
 
 
@@ -135,7 +154,7 @@ def run(ctx):
     res.rule = ("E5: the real default_hooks.toml of the working tree, real mkdir/echo/chmod/rm/pkill/git and the release tacd, a CA that really validates (reads the http-01 file at "
                 "the documented path; performs the acme-tls/1 handshake on the documented address or socket): groups {http-01-echo, tls-alpn-01-tacd-tcp, tls-alpn-01-tacd-unix} "
                 "x {alone, +git on account and certificate} x identifiers of 1..3 labels x 1..2 (quick) / 1..3 (thorough) consecutive issuances, variables set to scratch paths "
-                "and TACD_HOST/TACD_PORT defaulted. A state is (group, variables, issuance number); after each history leftovers and the git log are inspected.")
+                "and TACD_HOST/TACD_PORT defaulted; variables set in [global], on the certificate or on the identifier with decoy values at the wider levels and in the daemon's environment. A state is (group, variables, issuance number); after each history leftovers and the git log are inspected.")
     maxk = 2 if ctx.quick else 3
     reqs = []
     for group in ("http-01-echo", "tls-alpn-01-tacd-tcp", "tls-alpn-01-tacd-unix"):
@@ -160,6 +179,10 @@ def run(ctx):
     # TACD_HOST in the other address forms a listener accepts: IPv6 literal, host name, wildcard address
     for host in ("[::1]", "localhost", "0.0.0.0"):
         reqs.append(make_req("tls-alpn-01-tacd-tcp", "a.example", 2, False, port=bb.free_port(), host=host))
+    # the same variables set on the certificate or on the identifier (as in the manual's TACD_PORT example), decoy values at the wider levels
+    for level in ("certificate", "identifier"):
+        for group in ("http-01-echo", "tls-alpn-01-tacd-tcp", "tls-alpn-01-tacd-unix"):
+            reqs.append(make_req(group, "a.example", 2, False, port=bb.free_port(), level=level, decoy_port=bb.free_port()))
     obs_list = []
     # tcp scenarios with the default port must not run concurrently; everything else can
     obs_list = ctx.pool.map(reqs, 180.0)
